@@ -15,7 +15,7 @@ Every owner operation is the sequence of events that the C++ source performs, in
 _optional/optional.hpp, _expected/expected.hpp, _functional/inplace_function.hpp,
 _set/static_set.hpp, _flat_set/flat_set.hpp, _stack/stack.hpp, _algorithm/rotate.hpp,
 _algorithm/move.hpp, _algorithm/remove_if.hpp, _utility/swap.hpp, _memory/uninitialized_*.hpp,
-_memory/ranges_destroy.hpp), *as they are after the `fix:` commits of branch fix-c03*.
+_memory/ranges_destroy.hpp), *as they are after the `fix:` commits of branch fix-c03 and of the C07 follow-up (e7501ef, 48efb47)*.
 
 Element kinds: `cm` copyable and movable, `mo` move-only, `co` copy-only (no move members are
 declared, so every "move" of the library binds to the copy operation and leaves its source intact).
@@ -588,6 +588,20 @@ def varEmplace (k : Kind) (trk : Nat → Bool) (m : Mem) (s ix j : Nat) (h : How
     | .error e => .error e
     | .ok m2 => .ok (m2, j)
 
+/-- `operator=(T&& t)` where overload resolution selects alternative `j` (the converting assignment,
+    as it is after e7501ef): `if (index() == j) (*this)[index_v<j>] = forward<T>(t); else emplace<j>(forward<T>(t));`
+    — the held alternative is assigned through (copy assignment for an lvalue / a copy-only type, move
+    assignment for an rvalue), any other one is destroyed and the selected one constructed.
+    The operand `src` may be the variant's own alternative (`v = v[index_v<j>]`, then `index() == j`). -/
+def varAssignValue (k : Kind) (trk : Nat → Bool) (mv : Bool) (m : Mem) (s ix j : Nat) (src : Src) : Except LErr (Mem × Nat) :=
+  if ix = j then
+    (if trk j then
+      match (if mv then moveA k m s j src else copyA m s j src) with
+      | .error e => .error e
+      | .ok m1 => .ok (m1, j)
+     else .ok (m, j))
+  else varEmplace k trk m s ix j (if mv then .move src else .copy src)
+
 /-- copy / move constructor: `_union(uninitialized_union())`, then `replace(other.index, move(other.value))` -/
 def varConstructFrom (k : Kind) (trk : Nat → Bool) (mv : Bool) (m : Mem) (dst src ixs : Nat) : Except LErr (Mem × Nat) :=
   match vConstruct k trk m dst ixs (if mv then .move (.slot src) else .copy (.slot src)) with
@@ -624,8 +638,11 @@ def varSwap (k : Kind) (trk : Nat → Bool) (m : Mem) (a ixa b ixb tv : Nat) : E
         | .error e => .error e
         | .ok m4 => .ok (m4, if b = a then ixb' else ixa', ixb')
 
-/-- `optional = T` / `optional = T&&`: the operand is converted to a temporary `optional` (slot `tv`),
-    which is move-assigned and destroyed (`operator=(U&&)` is constrained away for `U = T`) -/
+/-- `optional<T> = t` / `optional<T> = move(t)` with `t` of type `T`: `operator=(U&&)` is constrained away for
+    `decay_t<U> = T` (`not is_same_v<T, decay_t<U>>`; its body, which since 48efb47 assigns through when engaged,
+    is reached only for `U ≠ T`), so the operand is converted to a temporary `optional` (slot `tv`) through
+    `optional(U&&)`, the temporary is move-assigned by the defaulted `operator=(optional&&)` (the variant's
+    `assign`: same index → assign through, else destroy + construct) and destroyed -/
 def optAssignValue (k : Kind) (trk : Nat → Bool) (m : Mem) (s ix tv : Nat) (h : How) : Except LErr (Mem × Nat) :=
   match vConstruct k trk m tv 1 h with
   | .error e => .error e
